@@ -166,7 +166,7 @@ class C13(Check):
         "wall clock of the server": "stub: epoch + virtual loop time",
     }
     shrink_lists = ["ops"]
-    quick_runs = 6000
+    quick_runs = 15000
     thorough_runs = 600000
     chunk = 100
 
